@@ -13,6 +13,7 @@ use crate::platform::{
 };
 
 use bincode;
+use serde::de::Error as _;
 use serde::{Deserialize, Deserializer, Serialize, Serializer};
 use std::cell::RefCell;
 use std::cmp::min;
@@ -584,16 +585,24 @@ impl<'de> Deserialize<'de> for IpcSharedMemory {
         } else {
             let os_shared_memory = OS_IPC_SHARED_MEMORY_REGIONS_FOR_DESERIALIZATION.with(
                 |os_ipc_shared_memory_regions_for_deserialization| {
-                    // FIXME(pcwalton): This could panic if the data was corrupt and the index was out
-                    // of bounds. We should return an `Err` result instead.
-                    os_ipc_shared_memory_regions_for_deserialization.borrow_mut()[index]
-                        .take()
-                        .unwrap()
+                    let mut os_ipc_shared_memory_regions_for_deserialization =
+                        os_ipc_shared_memory_regions_for_deserialization.borrow_mut();
+                    // The index comes from the message data, which may be corrupt or of another type.
+                    if index < os_ipc_shared_memory_regions_for_deserialization.len() {
+                        os_ipc_shared_memory_regions_for_deserialization[index].take()
+                    } else {
+                        None
+                    }
                 },
             );
-            Ok(IpcSharedMemory {
-                os_shared_memory: Some(os_shared_memory),
-            })
+            match os_shared_memory {
+                Some(os_shared_memory) => Ok(IpcSharedMemory {
+                    os_shared_memory: Some(os_shared_memory),
+                }),
+                None => Err(D::Error::custom(
+                    "IPC shared memory region index out of bounds or used twice",
+                )),
+            }
         }
     }
 }
@@ -1008,9 +1017,13 @@ where
 {
     let index: usize = Deserialize::deserialize(deserializer)?;
     OS_IPC_CHANNELS_FOR_DESERIALIZATION.with(|os_ipc_channels_for_deserialization| {
-        // FIXME(pcwalton): This could panic if the data was corrupt and the index was out of
-        // bounds. We should return an `Err` result instead.
-        Ok(os_ipc_channels_for_deserialization.borrow_mut()[index].to_sender())
+        let mut os_ipc_channels_for_deserialization =
+            os_ipc_channels_for_deserialization.borrow_mut();
+        // The index comes from the message data, which may be corrupt or of another type.
+        if index >= os_ipc_channels_for_deserialization.len() {
+            return Err(D::Error::custom("IPC channel index out of bounds"));
+        }
+        Ok(os_ipc_channels_for_deserialization[index].to_sender())
     })
 }
 
@@ -1037,8 +1050,12 @@ where
     let index: usize = Deserialize::deserialize(deserializer)?;
 
     OS_IPC_CHANNELS_FOR_DESERIALIZATION.with(|os_ipc_channels_for_deserialization| {
-        // FIXME(pcwalton): This could panic if the data was corrupt and the index was out
-        // of bounds. We should return an `Err` result instead.
-        Ok(os_ipc_channels_for_deserialization.borrow_mut()[index].to_receiver())
+        let mut os_ipc_channels_for_deserialization =
+            os_ipc_channels_for_deserialization.borrow_mut();
+        // The index comes from the message data, which may be corrupt or of another type.
+        if index >= os_ipc_channels_for_deserialization.len() {
+            return Err(D::Error::custom("IPC channel index out of bounds"));
+        }
+        Ok(os_ipc_channels_for_deserialization[index].to_receiver())
     })
 }
